@@ -683,6 +683,7 @@ class World(object):
             self.inflight.pop(aid, None)
             a["state"] = status
             self.pending[aid] = a
+            self.ever_task_paused = True
             aps = self.o.get("act_pause_seed")
             if status == "paused" and aps and Keyed(aps).u("pausing_first", aid) < 0.5:
                 # the action acknowledges the pause before it comes to rest
@@ -1201,6 +1202,7 @@ class World(object):
     last_done = None
     completing_exec = None
     canceled_by_action = False
+    ever_task_paused = False
     canceled_by_request = False
     partial_items = False
     kf_items_loop = None
@@ -1251,7 +1253,7 @@ class World(object):
                                     "offered" % (c.task, st))
         if st == "paused":
             tstat = [t.get("status") for t in self.snap["state"]["sequence"]]
-            cause = self.pause_req or self.ever_paused or bool(self.pending) or any(x in ("paused", "pending", "pausing") for x in tstat)
+            cause = self.pause_req or self.ever_paused or self.ever_task_paused or bool(self.pending) or any(x in ("paused", "pending", "pausing") for x in tstat)
             if not cause:
                 self.report("C03", "paused_has_cause", "workflow paused without a pause request or pending task")
         L = self.ledger
